@@ -50,7 +50,7 @@ const (
 
 // c42Case is the replayable description of one execution.
 type c42Case struct {
-	Kind   string   `json:"kind"`   // what transitions create: "file" or "dir" at path t; "gate": directories t and t2 in one call, held between the two changes until "release"; "root": the synchronization root itself is absent at the start and is created (as a directory holding a file, or as a file) and removed externally - no transitions; "pop": t is a directory populated with x and y, and the external edit "extchild" adds an unknown child t/z (so that a removal can succeed only partly); "macro": like "dir" but with the controller's habits as single events (sync = Scan+Transition, await = Poll+30 ms)
+	Kind   string   `json:"kind"`   // what transitions create: "file" or "dir" at path t; "gate": directories t and t2 in one call, held between the two changes until "release"; "root": the synchronization root itself is absent at the start and is created (as a directory holding a file, or as a file) and removed externally - no transitions; "pop": t is a directory populated with x and y, and the external edit "extchild" adds an unknown child t/z (so that a removal can succeed only partly); "macro": like "dir" but with the controller's habits as single events (sync = Scan+Transition, await = Poll+30 ms) and the environment event "outage" (the root is replaced by a symbolic link for one polling interval, so that a polling scan fails, and then restored)
 	Events []string `json:"events"` // scan scanfull trans release poll cancel adv30 adv1s extedit extrev
 }
 
@@ -318,6 +318,9 @@ func (w *c42World) enabled() []string {
 		if rev {
 			out = append(out, "extrev")
 		}
+		if w.kind == "macro" {
+			out = append(out, "outage")
+		}
 		return w.dropRepeatedShortAdvance(append(out, "cancel"))
 	}
 	if w.kind == "macro" {
@@ -332,7 +335,7 @@ func (w *c42World) enabled() []string {
 		if rev {
 			out = append(out, "extrev")
 		}
-		return out
+		return append(out, "outage")
 	}
 	out = append(out, "scan", "scanfull")
 	if w.haveScan && w.canTransition {
@@ -423,6 +426,21 @@ func (w *c42World) do(ev string) {
 		w.st.stamp(w.root)
 		w.tag("ext")
 		w.obs("extedit g -> state %d", w.gstate)
+	case "outage":
+		// The root cannot be scanned for one polling interval: it is moved aside
+		// and a symbolic link put in its place (the endpoint refuses to open a
+		// symlinked root, so the polling scan that falls into the interval
+		// fails), then everything is put back exactly as it was. No consumer
+		// call happens meanwhile.
+		aside := w.root + ".aside"
+		os.Rename(w.root, aside)
+		os.Symlink(aside, w.root)
+		time.Sleep(c42Interval + 30*time.Millisecond)
+		synctest.Wait()
+		os.Remove(w.root)
+		os.Rename(aside, w.root)
+		w.tag("outage")
+		w.obs("outage: root was a symbolic link for %v", c42Interval+30*time.Millisecond)
 	case "mkroot":
 		os.Mkdir(w.root, 0o700)
 		p := filepath.Join(w.root, c42GPath)
@@ -904,9 +922,9 @@ func isSubsequence(pat, h []string) bool {
 
 // c42Rank orders events for the canonical form of a minimal violating history.
 // c42EventNames is the event alphabet (index = compact encoding).
-var c42EventNames = []string{"scan", "scanfull", "trans", "release", "poll", "cancel", "adv30", "adv1s", "extedit", "extrev", "sync", "await", "extchild", "mkroot", "fileroot", "rmroot"}
+var c42EventNames = []string{"scan", "scanfull", "trans", "release", "poll", "cancel", "adv30", "adv1s", "extedit", "extrev", "sync", "await", "extchild", "mkroot", "fileroot", "rmroot", "outage"}
 
-var c42Rank = map[string]int{"scan": 0, "scanfull": 1, "trans": 2, "sync": 2, "release": 3, "adv30": 4, "adv1s": 5, "poll": 6, "await": 6, "cancel": 7, "extedit": 8, "extchild": 8, "mkroot": 8, "fileroot": 8, "rmroot": 8, "extrev": 9}
+var c42Rank = map[string]int{"scan": 0, "scanfull": 1, "trans": 2, "sync": 2, "release": 3, "adv30": 4, "adv1s": 5, "poll": 6, "await": 6, "cancel": 7, "extedit": 8, "extchild": 8, "mkroot": 8, "fileroot": 8, "rmroot": 8, "outage": 8, "extrev": 9}
 
 // minimiseC42 reduces a violating case to a canonical 1-minimal one: (1) greedy
 // delta debugging - remove single events while the case stays a valid history
@@ -971,7 +989,7 @@ func minimiseC42(t *testing.T, env *c42Env, c c42Case, clause string, runs *int6
 	// A history without transitions does not depend on the transition kind.
 	uses := false
 	for _, e := range cur {
-		if e == "trans" || e == "extrev" || e == "release" || e == "sync" || e == "await" || e == "extchild" || e == "mkroot" || e == "fileroot" || e == "rmroot" {
+		if e == "trans" || e == "extrev" || e == "release" || e == "sync" || e == "await" || e == "extchild" || e == "mkroot" || e == "fileroot" || e == "rmroot" || e == "outage" {
 			uses = true
 		}
 	}
@@ -1031,7 +1049,7 @@ func TestC42(t *testing.T) {
 	depth := depthOf["dir"]
 	kinds := []string{"macro", "root", "pop", "dir", "file", "gate"}
 	deadline := scaledDeadline(55*time.Second, 9*time.Minute)
-	r.Rule(fmt.Sprintf("every sequence of <= %d harness events (scan, scanfull, trans[create/delete t after staging], poll, cancel, adv30ms, adv1s, extedit[g: create/modify/delete], extrev[exact external reversal of the last transition]) that respects the Endpoint contract (one call outstanding, Transition only after a Scan), for t a directory (depth %d), t a file (depth %d), and a two-change transition (directories t and t2) held by a hook-layer gate between its two changes until a release event so that poll scans land inside it (depth %d), plus a controller-shaped variant whose events are whole habits (sync = Scan then Transition, await = Poll then 30 ms; depth %d, so it reaches much longer raw histories), and a variant whose target directory is populated (x, y) and can receive an unknown child t/z externally (event extchild) between Scan and Transition, so that its removal succeeds only partly (depth %d), and a variant without transitions in which the synchronization root itself starts absent and is created externally as a directory with a file (mkroot) or as a file (fileroot) and removed again (rmroot) (depth %d); histories are visited level by level (all variants of length d before any of length d+1); each history is a fresh bubble replayed from scratch; non-trivial = a Scan was judged after a disk-changing transition, or an external modification created a notification obligation; distinct by (kind, event list)", depth, depthOf["dir"], depthOf["file"], depthOf["gate"], depthOf["macro"], depthOf["pop"], depthOf["root"]))
+	r.Rule(fmt.Sprintf("every sequence of <= %d harness events (scan, scanfull, trans[create/delete t after staging], poll, cancel, adv30ms, adv1s, extedit[g: create/modify/delete], extrev[exact external reversal of the last transition]) that respects the Endpoint contract (one call outstanding, Transition only after a Scan), for t a directory (depth %d), t a file (depth %d), and a two-change transition (directories t and t2) held by a hook-layer gate between its two changes until a release event so that poll scans land inside it (depth %d), plus a controller-shaped variant whose events are whole habits (sync = Scan then Transition, await = Poll then 30 ms, plus an outage event during which the root is a symbolic link for one polling interval so that a polling scan fails; depth %d, so it reaches much longer raw histories), and a variant whose target directory is populated (x, y) and can receive an unknown child t/z externally (event extchild) between Scan and Transition, so that its removal succeeds only partly (depth %d), and a variant without transitions in which the synchronization root itself starts absent and is created externally as a directory with a file (mkroot) or as a file (fileroot) and removed again (rmroot) (depth %d); histories are visited level by level (all variants of length d before any of length d+1); each history is a fresh bubble replayed from scratch; non-trivial = a Scan was judged after a disk-changing transition, or an external modification created a notification obligation; distinct by (kind, event list)", depth, depthOf["dir"], depthOf["file"], depthOf["gate"], depthOf["macro"], depthOf["pop"], depthOf["root"]))
 	r.Assume("real local endpoint, force-poll, 1 s interval, accelerated scanning, probe mode assume, staging in the data directory",
 		"granularity: harness events happen only at quiescence (synctest.Wait); interleavings inside one quiescence step and Go select choice are not owned (divergent_replays counts observed differences)",
 		"second sentence judged on what the consumer can see: while the disk differs from what the consumer was last told (Scan result + transition results) and no notification was delivered since it was told, a Poll must return within interval + 2 x coalescing window of virtual time from the last change of disk or belief; modifications undone before a poll could sample them, or already reported by a Scan, owe nothing",
